@@ -59,8 +59,8 @@ Qed.
 (* tie to the source: the member tables (keys, order, types, which members are skipped when unset) and
    the variant -> serialised-member table *)
 Theorem c02_generated_conforms :
-  forallb (fun f => env_conforms_role decl_ser (gen_env f) (spec_env f)) all_feats = true.
-Proof. exact generated_ser_role. Qed.
+  forallb (fun f => response_side_conforms (gen_env f) (spec_env f)) all_feats = true.
+Proof. exact generated_response_side. Qed.
 Theorem c02_generated_tables : forallb (fun f => resp_tables_equiv (gen_tables f)) all_feats = true.
 Proof. exact generated_resp_tables. Qed.
 
